@@ -1782,3 +1782,7 @@ mod tests {
         buf.reserve(usize::MAX);
     }
 }
+
+#[cfg(kani)]
+#[path = "/verif/kani/arrow-buffer/buffer/mutable.rs"]
+mod verif_kani;
